@@ -13,7 +13,8 @@ def _db():
 
     db = engine.Database()
     for ddl in ("CREATE TABLE t (id INT NOT NULL, v BIGINT NOT NULL DEFAULT 0, PRIMARY KEY (id))",
-                "CREATE TABLE log (id INT NOT NULL AUTO_INCREMENT, who INT, seen BIGINT, PRIMARY KEY (id))"):
+                "CREATE TABLE log (id INT NOT NULL AUTO_INCREMENT, who INT, seen BIGINT, PRIMARY KEY (id))",
+                "CREATE TABLE kv (id INT NOT NULL AUTO_INCREMENT, k VARCHAR(20) NOT NULL, PRIMARY KEY (id))"):
         engine.create_table(db.store, ddl)
     for src in (
         """CREATE PROCEDURE bump(IN i INT) BEGIN DECLARE x BIGINT; START TRANSACTION;
@@ -26,6 +27,12 @@ def _db():
              UPDATE t SET v = 999 WHERE id = i; UPDATE t SET v = 998 WHERE id = i; ROLLBACK; SELECT 0 AS rc; END""",
         """CREATE PROCEDURE peek(IN i INT) BEGIN DECLARE x BIGINT; DECLARE y BIGINT; START TRANSACTION;
              SELECT v INTO x FROM t WHERE id = i; SELECT v INTO y FROM t WHERE id = i; COMMIT; SELECT x AS x, y AS y; END""",
+        """CREATE PROCEDURE get_or_create(IN in_k VARCHAR(20)) BEGIN DECLARE x INT; START TRANSACTION;
+             SELECT id INTO x FROM kv WHERE k = in_k FOR UPDATE;
+             IF x IS NULL THEN INSERT INTO kv (k) VALUES (in_k); SET x = LAST_INSERT_ID(); END IF; COMMIT; SELECT x AS id; END""",
+        """CREATE PROCEDURE get_or_create_plain(IN in_k VARCHAR(20)) BEGIN DECLARE x INT; START TRANSACTION;
+             SELECT id INTO x FROM kv WHERE k = in_k;
+             IF x IS NULL THEN INSERT INTO kv (k) VALUES (in_k); SET x = LAST_INSERT_ID(); END IF; COMMIT; SELECT x AS id; END""",
         """CREATE PROCEDURE share_then_write(IN i INT) BEGIN DECLARE x BIGINT; START TRANSACTION;
              SELECT v INTO x FROM t WHERE id = i LOCK IN SHARE MODE; UPDATE t SET v = x + 1 WHERE id = i; COMMIT; SELECT x AS seen; END""",
     ):
@@ -35,7 +42,7 @@ def _db():
     return db
 
 
-def _explore(db, calls, *, snapshot_reads=False, prune=True, retry=False, cap=20000):
+def _explore(db, calls, *, snapshot_reads=False, prune=True, retry=False, cap=20000, final_fn=None, finals=None):
     """calls: list of (sql, args).  Each op runs its CALL in its own connection (with the driver shim), optionally with
     gear-like retry of error 1213.  -> (ExploreResult, totals)"""
     import aiomysql
@@ -45,7 +52,7 @@ def _explore(db, calls, *, snapshot_reads=False, prune=True, retry=False, cap=20
 
     pristine = db.store.clone_data()
     pool = aiomysql.Pool(None)
-    totals = {'executions': 0, 'lock_waits': 0, 'deadlocks': 0, 'preimage_rows_served': 0}
+    totals = {'executions': 0, 'lock_waits': 0, 'deadlocks': 0, 'preimage_rows_served': 0, 'insert_intention_waits': 0}
 
     def mk(sql, args):
         async def op():
@@ -79,8 +86,10 @@ def _explore(db, calls, *, snapshot_reads=False, prune=True, retry=False, cap=20
             res, tm, errs = txmc.run_execution(db, fns, ch, set_backend=set_backend, snapshot_reads=snapshot_reads, prune=prune)
             assert not errs, errs
             totals['executions'] += 1
-            for k in ('lock_waits', 'deadlocks', 'preimage_rows_served'):
+            for k in ('lock_waits', 'deadlocks', 'preimage_rows_served', 'insert_intention_waits'):
                 totals[k] += tm.stats[k]
+            if final_fn is not None:
+                finals.append(final_fn())
             final = tuple(sorted((r['id'], r['v']) for r in db.store.tables['t'].rows.values()))
             return (final, tuple(res)), None, None
         return run_one
@@ -183,7 +192,23 @@ def run():
     # 7. three sessions
     r9, t9 = _explore(db, [('CALL bump(%s)', (1,)), ('CALL bump(%s)', (1,)), ('CALL bump(%s)', (1,))])
     assert _finals(r9) == {((1, 3), (2, 0))}, r9.outcomes
-    total = sum(x.executions for x in (r, r2, r2u, r3, r4, r5, r6, r7, r8, r9))
+    # 8. get-or-create on a NON-unique column: the locking read of an empty gap does not block the other session's, the
+    #    two INSERTs wait on each other's gap lock -> deadlock, victim retried -> always one row and one id; different keys
+    #    do not interfere; with a plain read both insert
+    def kv():
+        return tuple(sorted(r['k'] for r in db.store.tables['kv'].rows.values()))
+
+    finals = []
+    ra, ta = _explore(db, [('CALL get_or_create(%s)', ('a',)), ('CALL get_or_create(%s)', ('a',))], retry=True, final_fn=kv, finals=finals)
+    assert set(finals) == {('a',)} and ta['deadlocks'] > 0 and ta['insert_intention_waits'] > 0, (set(finals), ta)
+    assert all(len({dict(x)['id'] for x in eval(k)[1]}) == 1 for k in ra.outcomes), ra.outcomes   # noqa: S307
+    finals = []
+    rb, tb = _explore(db, [('CALL get_or_create(%s)', ('a',)), ('CALL get_or_create(%s)', ('b',))], retry=True, final_fn=kv, finals=finals)
+    assert set(finals) == {('a', 'b')} and tb['deadlocks'] == 0 and tb['insert_intention_waits'] == 0, (set(finals), tb)
+    finals = []
+    rc, tc = _explore(db, [('CALL get_or_create_plain(%s)', ('a',)), ('CALL get_or_create_plain(%s)', ('a',))], retry=True, final_fn=kv, finals=finals)
+    assert set(finals) == {('a',), ('a', 'a')}, set(finals)
+    total = sum(x.executions for x in (r, r2, r2u, r3, r4, r5, r6, r7, r8, r9, ra, rb, rc))
     _teardown_checks(db)
     assert threading.active_count() == n_threads, threading.enumerate()   # no thread is ever created
     # default behaviour untouched once the model is gone
